@@ -3,7 +3,7 @@
 # For every seeded change: apply it to /repo, run ALL property checks, undo it; print which properties raise a VIOLATION.
 # Expected: the property the change breaks (meta.json breaks_property) raises; a property that still holds stays quiet.
 cd /verif
-ALL="C01 C02 C03 C04 C05 C06 C08 C09 C10 C14 C15 C16 C17 C18 C19"
+ALL="C01 C02 C03 C04 C05 C06 C08 C09 C10 C13 C14 C15 C16 C17 C18 C19"
 if [ $# -gt 0 ]; then IDS="$*"; else IDS=$(ls seeded | grep -v harmless); fi
 T=$(mktemp -d); cp -r evidence $T/evidence_keep
 for id in $IDS; do
